@@ -86,9 +86,14 @@ func (e *Exec) extern(fr *frame, st *State, ci ssa.CallInstruction, name string,
 func (e *Exec) pureAccessor(fr *frame, st *State, ci ssa.CallInstruction, f *types.Func, args []SV, rt types.Type) SV {
 	sig := f.Type().(*types.Signature)
 	var ts []Term
+	recvClass := ""
+	if len(args) > 0 {
+		recvClass = typeKey(args[0].T)
+	}
 	for i, a := range args {
 		if i == 0 && a.Addr != nil && a.Addr.Kind == AObj && len(a.L) == 0 {
 			// receiver is an embedded field of the object (e.g. &f.object for *types.Func): the object identifies it
+			recvClass = "*" + a.Addr.Class
 			args[0] = SV{T: a.T, L: []Term{a.Addr.Ref}}
 			a = args[0]
 		}
@@ -120,7 +125,25 @@ func (e *Exec) pureAccessor(fr *frame, st *State, ci ssa.CallInstruction, f *typ
 			st.pc = append(st.pc, Ge(res.L[i], IntLit(0)))
 		}
 	}
+	// A-types: type expressions are finite trees — structural accessors yield strictly smaller values
+	if len(args) > 0 && len(args[0].L) == 1 && len(res.L) == 1 && res.L[0].Sort == SInt {
+		structural := map[string]bool{"Elem": true, "Key": true, "At": true, "Params": true, "Results": true, "Field": true, "EmbeddedType": true,
+			"ExplicitMethod": true, "Term": true, "TypeArgs": true}
+		if structural[f.Name()] || (f.Name() == "Type" && (recvClass == "*go/types.Var" || recvClass == "*go/types.Func" || recvClass == "*go/types.Term")) {
+			sz := func(x Term) Term { return e.ctx.uf("types.size", SInt, x) }
+			st.pc = append(st.pc, Implies(Not(Eq(res.L[0], IntLit(0))), And(Lt(sz(res.L[0]), sz(args[0].L[0])), Ge(sz(res.L[0]), IntLit(0)))))
+		}
+	}
 	switch f.Name() {
+	case "Obj":
+		// the object of a named type, alias or type parameter has a non-empty name
+		if len(res.L) == 1 {
+			st.pc = append(st.pc, Gt(app(SInt, "str.len", e.ctx.uf("types.Name", SString, res.L[0])), IntLit(0)))
+		}
+	case "String":
+		if recvClass == "*go/types.Basic" && len(res.L) == 1 {
+			st.pc = append(st.pc, Gt(app(SInt, "str.len", res.L[0]), IntLit(0)))
+		}
 	case "Method", "ExplicitMethod":
 		// the type of an interface method is a signature
 		if len(res.L) == 1 {
@@ -216,7 +239,12 @@ func strUF(name string) func(e *Exec, fr *frame, st *State, ci ssa.CallInstructi
 		for _, a := range args {
 			ts = append(ts, a.L...)
 		}
-		return scalar(rt, e.ctx.uf(name, SString, ts...))
+		r := e.ctx.uf(name, SString, ts...)
+		if name == "strings.ToUpper" || name == "strings.ToLower" {
+			// A-case: case mapping never yields the empty string for a non-empty one
+			st.pc = append(st.pc, Implies(Not(Eq(ts[0], StrLit(""))), Not(Eq(r, StrLit("")))))
+		}
+		return scalar(rt, r)
 	}
 }
 
